@@ -1,6 +1,7 @@
 import Driver.Sexp
 import Pcore.Model.Tls
 import Pcore.Model.TlsSmall
+import Pcore.Model.TlsFacts
 /-!
 Driver ops for C14 (syntax shared with harness/c14):
 
@@ -11,6 +12,9 @@ Driver ops for C14 (syntax shared with harness/c14):
 
     term ::= (obs) | (set k n) | (get k) | (del k) | (push n) | (pop) | (deftype a) | (load a) | (panic)
            | (doctx id term…) | (doparent id term…) | (do id term…) | (try id term…) | (doloader term…) | (fork term…) | (go term…) | (seq term…) | (recover term…)
+
+The model variant run by `prog`/`progs` is `implVer`: selected by the regenerated shape table `Generated/CtxFacts.lean`
+(`Model/TlsFacts.lean`); `progi` runs the small-step model of the code as it is now.
 
 Output: `g0:N ev ev … | g1:P ev … ; cur=- live=0` — one block per goroutine in creation order (`N` normal, `P` panicked),
 events `o<tag>[stack]` (`!` appended when CurrentContext() is not the context handed to the body, `o-` no current
@@ -104,11 +108,11 @@ def schedOf : Sexp → Option (List Nat)
 def exec : List Sexp → String
   | [.atom "prog", t] =>
     match progOf t with
-    | some p => render (run .now [] p)
+    | some p => render (run implVer [] p)
     | none => "bad-op"
   | [.atom "progs", s, t] =>
     match schedOf s, progOf t with
-    | some sc, some p => render (run .now sc p)
+    | some sc, some p => render (run implVer sc p)
     | _, _ => "bad-op"
   | [.atom "progi", s, t] =>
     match schedOf s, progOf t with
